@@ -5,6 +5,7 @@ package main
 import (
 	"fmt"
 	"os"
+	"runtime/pprof"
 )
 
 var cmds = map[string]func(args []string) int{}
@@ -18,6 +19,14 @@ func main() {
 	if !ok {
 		fmt.Fprintln(os.Stderr, "unknown command", os.Args[1])
 		os.Exit(2)
+	}
+	if p := os.Getenv("DRV_CPUPROFILE"); p != "" {
+		pf, _ := os.Create(p)
+		_ = pprof.StartCPUProfile(pf)
+		rc := f(os.Args[2:])
+		pprof.StopCPUProfile()
+		pf.Close()
+		os.Exit(rc)
 	}
 	os.Exit(f(os.Args[2:]))
 }
